@@ -341,6 +341,99 @@ def exBodyBadAddr : Val :=
 example : resClass (fromPrimL repoSchema realLeaves 40 (.cls "TransactionBody") (toPrim repoSchema exBodyBadAddr)) = 1 ∧
     resClass (fromPrim repoSchema 40 (.cls "TransactionBody") (toPrim repoSchema exBodyBadAddr)) = 0 := by decide +kernel
 
+/-! ### for ALL well-formed outputs: a table-driven parent over the output leaf, by theorem -/
+
+/-- the class definition the regenerated table holds under a name -/
+def defOf (n : String) : ClassDef := (lookup repoSchema n).getD default
+def fieldAt (n : String) (k : Nat) : FieldDef := (wireFields (defOf n)).getD k default
+def isCls (t : Ty) (n : String) : Bool := match t with | .cls m => m == n | _ => false
+def isInt (t : Ty) : Bool := match t with | .int => true | _ => false
+
+theorem isCls_sound {t : Ty} {n : String} (h : isCls t n = true) : t = .cls n := by
+  cases t <;> simp [isCls] at h; rw [h]
+theorem isInt_sound {t : Ty} (h : isInt t = true) : t = .int := by
+  cases t <;> simp [isInt] at h; rfl
+
+theorem lookup_defOf (n : String) (h : (lookup repoSchema n).isSome = true) : lookup repoSchema n = some (defOf n) := by
+  unfold defOf
+  cases hl : lookup repoSchema n with
+  | some cd => rfl
+  | none => rw [hl] at h; cases h
+
+theorem two_fields (n : String) (h : (wireFields (defOf n)).length = 2) :
+    wireFields (defOf n) = [fieldAt n 0, fieldAt n 1] := by
+  unfold fieldAt
+  match hw : wireFields (defOf n), h with
+  | [a, b], _ => rfl
+
+/-- **every `UTxO` with a well-formed output round-trips through the composed codec on the real table** — any address kind,
+any multi-asset amount, datum hash / inline datum, native reference scripts of any depth: the table-driven parent, the
+hash class and the hand-written output codec together -/
+theorem utxo_typed (txid : Bytes) (ix : Int) (o : Output AddrLeaf.VAddr Item WScript) (ht : txid.length = 32)
+    (hi : IntOk ix) (ho : OutputOk outLeaves o) :
+    HasTypeL repoSchema realLeaves (.cls "UTxO")
+      (.obj "UTxO" [.obj "TransactionInput" [.cb txid, .int ix], .opaque (itemOutput outLeaves o)]) := by
+  have hU := lookup_defOf "UTxO" (by decide +kernel)
+  have hI := lookup_defOf "TransactionInput" (by decide +kernel)
+  have hO := lookup_defOf "TransactionOutput" (by decide +kernel)
+  have hH := lookup_defOf "TransactionId" (by decide +kernel)
+  have cU := C01.core_class_shape (defOf "UTxO") (by decide +kernel)
+  have cI := C01.core_class_shape (defOf "TransactionInput") (by decide +kernel)
+  have fU := two_fields "UTxO" (by decide +kernel)
+  have fI := two_fields "TransactionInput" (by decide +kernel)
+  have t0 : (fieldAt "UTxO" 0).ty = .cls "TransactionInput" := isCls_sound (by decide +kernel)
+  have t1 : (fieldAt "UTxO" 1).ty = .cls "TransactionOutput" := isCls_sound (by decide +kernel)
+  have s0 : (fieldAt "TransactionInput" 0).ty = .cls "TransactionId" := isCls_sound (by decide +kernel)
+  have s1 : (fieldAt "TransactionInput" 1).ty = .int := isInt_sound (by decide +kernel)
+  have hk : (defOf "TransactionId").kind = .cbytes 32 32 ∧ Generic (defOf "TransactionId") := by
+    refine ⟨?_, genericB_sound _ (by decide +kernel)⟩
+    have : (match (defOf "TransactionId").kind with | .cbytes a b => a == 32 && b == 32 | _ => false) = true := by
+      decide +kernel
+    cases hkk : (defOf "TransactionId").kind <;> rw [hkk] at this <;> simp at this
+    rw [this.1, this.2]
+  have hOl : ¬ Generic (defOf "TransactionOutput") := by
+    intro hg
+    have : genericB (defOf "TransactionOutput") = false := by decide +kernel
+    unfold Generic at hg; unfold genericB at this
+    rw [hg.1, hg.2] at this
+    exact absurd this (by decide)
+  refine HasTypeL.obj hU cU.1 cU.2 ?_
+  rw [fU]
+  refine HasFieldsL.cons (by decide +kernel) ?_ (HasFieldsL.cons (by decide +kernel) ?_ HasFieldsL.nil)
+  · rw [t0]
+    refine HasTypeL.obj hI cI.1 cI.2 ?_
+    rw [fI]
+    refine HasFieldsL.cons (by decide +kernel) ?_ (HasFieldsL.cons (by decide +kernel) ?_ HasFieldsL.nil)
+    · rw [s0]; exact HasTypeL.cb hH hk.2 hk.1 (by omega) (by omega)
+    · rw [s1]; exact HasTypeL.int hi
+  · rw [t1]
+    exact HasTypeL.custom hO (fun hg => absurd hg hOl) (leaf_fixed_TransactionOutput o ho)
+
+
+theorem utxo_roundtrip (txid : Bytes) (ix : Int) (o : Output AddrLeaf.VAddr Item WScript) (ht : txid.length = 32)
+    (hi : IntOk ix) (ho : OutputOk outLeaves o) :
+    ∃ N, ∀ fuel, N ≤ fuel → fromPrimL repoSchema realLeaves fuel (.cls "UTxO")
+      (toPrim repoSchema (.obj "UTxO" [.obj "TransactionInput" [.cb txid, .int ix], .opaque (itemOutput outLeaves o)])) =
+      .ok (.obj "UTxO" [.obj "TransactionInput" [.cb txid, .int ix], .opaque (itemOutput outLeaves o)]) :=
+  compose_roundtrip _ _ _ _ (utxo_typed txid ix o ht hi ho)
+
+/-- non-vacuity: the map-form output with a pointer address, multi-asset amount, inline datum and native reference script
+meets `OutputOk` -/
+theorem exOut2_ok : OutputOk outLeaves exOut2 := by
+  refine ⟨C01.exValue_ok, ?_, ?_, ?_⟩
+  · intro hh e; cases e
+  · intro d e; cases e; simp [outLeaves, Leaf.raw, Cbor.WF, Cbor.WFList]
+  · intro s e
+    cases e
+    exact Pyc.Ids.item_wf C01.NativeScript.exInRange
+      (Pyc.NativeScript.validNative_of_inRange C01.NativeScript.exInRange (by decide))
+
+example : ∃ N, ∀ fuel, N ≤ fuel → fromPrimL repoSchema realLeaves fuel (.cls "UTxO")
+      (toPrim repoSchema (.obj "UTxO" [.obj "TransactionInput" [.cb (List.replicate 32 7), .int 4294967296],
+        .opaque (itemOutput outLeaves exOut2)])) =
+      .ok (.obj "UTxO" [.obj "TransactionInput" [.cb (List.replicate 32 7), .int 4294967296], .opaque (itemOutput outLeaves exOut2)]) :=
+  utxo_roundtrip _ _ exOut2 (by simp) (by unfold IntOk; omega) exOut2_ok
+
 end Pyc.C01.Compose
 
 #print axioms Pyc.C01.Compose.compose_conservative
@@ -371,3 +464,10 @@ end Pyc.C01.Compose
 #print axioms Pyc.C01.Compose.leaf_fixed_TransactionWitnessSet
 #print axioms Pyc.C01.Compose.exBodyL_typed
 #print axioms Pyc.C01.Compose.exBodyL_roundtrip
+#print axioms Pyc.C01.Compose.isCls_sound
+#print axioms Pyc.C01.Compose.isInt_sound
+#print axioms Pyc.C01.Compose.lookup_defOf
+#print axioms Pyc.C01.Compose.two_fields
+#print axioms Pyc.C01.Compose.utxo_typed
+#print axioms Pyc.C01.Compose.utxo_roundtrip
+#print axioms Pyc.C01.Compose.exOut2_ok
